@@ -52,6 +52,8 @@ def run(ctx):
     ctx.rule('R17.2', 'closer agreement: compound keywords the lexer fuses are known to the split-level table', floor=3)
     ctx.rule('R17.3', 'protocol balance on the construct skeletons: inner ";" at level >= 1, final ";" at level <= 0, following statements separate', floor=15)
     ctx.rule('R17.4', 'per-statement state is completely reset; block keywords are lexed as Keyword tokens', floor=8)
+    ctx.rule('R17.5', 'driver order: per token one _change_splitlevel(ttype, value) after the yield/_reset of the previous statement; its delta goes to self.level before the append', floor=2)
+    RS.check_driver_order(ctx, 'R17.5')
     V = VC.get_vocab(ctx)
     rows = transfer_table(ctx)
     ctx.info['transfer_table'] = rows
